@@ -6,6 +6,18 @@ package main
 // inputs; 1..N serial, overlapping and mixed Execute calls; ATP v3, and the legacy v1 framing
 // against a tiny scripted legacy server (as the SDK's own tests do).
 //
+// A third transport, `split`, puts a writer in front of the SERVER-to-client direction that passes
+// every Write on in pieces of 1..16 bytes (from the seed) with runtime.Gosched() / a tiny sleep
+// between the pieces: there is no per-Write atomicity, so two concurrent Writes interleave byte-wise.
+// With the server's Encodes serialised by encoderMutex this is harmless; an Encode that bypasses the
+// mutex corrupts the stream. The `bulk` stream (every run) aims at exactly that: a fixed plugin whose
+// step returns 1-8 KB outputs, several rounds of 2-8 concurrent Executes per session that overlap
+// large work-done messages with error reports (rejected input, unknown step) and with each other,
+// always over `split`.
+//
+// A finding carries the whole session (plugin, calls with inputs, rounds, delays, transport, seed) as
+// its detail; `harness atpsession -replay <finding or session json>` re-runs that session.
+//
 // Every Execute result is compared with calling the same step in-process (`CallStep`) on the same
 // input after CBOR normalisation (cbor.Marshal / Unmarshal) of input and output. Findings
 // (prop C05): any difference in error-ness, output ID or output data, an Execute that does not
@@ -23,7 +35,9 @@ import (
 	"io"
 	"math/rand"
 	"os"
+	"runtime"
 	"sort"
+	"strings"
 	"sync"
 	"time"
 
@@ -124,6 +138,43 @@ func (c atpxChannel) Close() error {
 	}
 	return nil
 }
+
+// atpxSplitWriter passes every Write on in pieces of 1..16 bytes and yields between the pieces;
+// concurrent Writes are NOT serialised (that is the point).
+type atpxSplitWriter struct {
+	w      io.WriteCloser
+	mu     sync.Mutex // protects r and pieces only
+	r      *rand.Rand
+	pieces int
+}
+
+func (sw *atpxSplitWriter) Write(b []byte) (int, error) {
+	n := 0
+	for len(b) > 0 {
+		sw.mu.Lock()
+		k := 1 + sw.r.Intn(16)
+		nap := sw.r.Intn(24) == 0
+		sw.pieces++
+		sw.mu.Unlock()
+		if k > len(b) {
+			k = len(b)
+		}
+		m, err := sw.w.Write(b[:k])
+		n += m
+		if err != nil {
+			return n, err
+		}
+		b = b[k:]
+		if nap {
+			time.Sleep(20 * time.Microsecond)
+		} else {
+			runtime.Gosched()
+		}
+	}
+	return n, nil
+}
+
+func (sw *atpxSplitWriter) Close() error { return sw.w.Close() }
 
 // ---------------------------------------------------------------------------------------------
 // generated plugins
@@ -262,12 +313,111 @@ type atpxGenT struct {
 }
 
 type atpxCall struct {
-	RunID string
-	Step  string
-	Input any // Go value handed to Execute
+	RunID string  `json:"run"`
+	Step  string  `json:"step"`
+	V     *hx.Val `json:"input"`    // the input; Execute gets V.ToGo()
+	Delay int     `json:"delay_us"` // pattern "rounds": started this long after its round began
+	Input any     `json:"-"`
 }
 
-func (g *atpxGenT) input(st atpxStep, uid string) any {
+// atpxSpec is one session, complete enough to be re-run.
+type atpxSpec struct {
+	Idx       int         `json:"session"`
+	Stream    string      `json:"stream"` // generated | bulk
+	Plugin    *atpxPlugin `json:"plugin,omitempty"`
+	Calls     []atpxCall  `json:"calls"`
+	Pattern   string      `json:"pattern"` // serial | overlap | waves | rounds
+	Rounds    [][]int     `json:"rounds,omitempty"`
+	Transport string      `json:"transport"` // pipe | chunked | split
+	V1        bool        `json:"v1"`
+	Seed      int64       `json:"seed"`
+}
+
+func (sp *atpxSpec) build() *schema.CallableSchema {
+	if sp.Stream == "bulk" {
+		return atpxBulkPlugin()
+	}
+	return sp.Plugin.build()
+}
+
+// ---------------------------------------------------------------------------------------------
+// the bulk plugin: large outputs
+
+func atpxBlob(uid string, size int) string {
+	var b strings.Builder
+	for i := 0; b.Len() < size; i++ {
+		fmt.Fprintf(&b, "%s/%d;", uid, i)
+	}
+	return b.String()[:size]
+}
+
+func atpxBulkPlugin() *schema.CallableSchema {
+	in := schema.NewScopeSchema(schema.NewObjectSchema("BulkInput", map[string]*schema.PropertySchema{
+		"uid":  atpsProp(schema.NewStringSchema(nil, nil, nil), true),
+		"size": atpsProp(schema.NewIntSchema(hx_i64(0), hx_i64(1<<20), nil), true),
+	}))
+	outputs := map[string]*schema.StepOutputSchema{
+		"success": schema.NewStepOutputSchema(schema.NewScopeSchema(schema.NewObjectSchema("BulkOutput", map[string]*schema.PropertySchema{
+			"tag":  atpsProp(schema.NewStringSchema(nil, nil, nil), true),
+			"blob": atpsProp(schema.NewStringSchema(nil, nil, nil), true),
+		})), nil, false),
+	}
+	handler := func(_ context.Context, input any) (string, any) {
+		m, _ := input.(map[string]any)
+		uid, _ := m["uid"].(string)
+		size, _ := m["size"].(int64)
+		return "success", map[string]any{"tag": uid, "blob": atpxBlob(uid, int(size))}
+	}
+	return schema.NewCallableSchema(schema.NewCallableStep[any]("bulk", in, outputs, nil, handler))
+}
+
+func hx_i64(n int64) *int64 { return &n }
+
+// bulkSpec: rounds of 2..8 concurrent Executes mixing large outputs, small outputs, rejected
+// input and unknown steps.
+func atpxBulkSpec(idx int, rnd *rand.Rand, seed int64) *atpxSpec {
+	sp := &atpxSpec{Idx: idx, Stream: "bulk", Pattern: "rounds", Transport: "split", Seed: seed}
+	rounds := 3 + rnd.Intn(4)
+	for r := 0; r < rounds; r++ {
+		k := 2 + rnd.Intn(7)
+		var round []int
+		for c := 0; c < k; c++ {
+			run := fmt.Sprintf("b%d-%d-%d", idx, r, c)
+			call := atpxCall{RunID: run, Step: "bulk"}
+			kind := rnd.Intn(100)
+			if c == 0 {
+				kind = 0 // every round has a large output
+			} else if c == 1 {
+				kind = 60 + rnd.Intn(40) // and something that fails
+			}
+			switch {
+			case kind < 45: // 1-8 KB
+				call.V = hx.StrAny([2]*hx.Val{hx.Str("uid"), hx.Str(run)}, [2]*hx.Val{hx.Str("size"), hx.Int("int64", int64(1024+rnd.Intn(7*1024)))})
+			case kind < 60: // small
+				call.V = hx.StrAny([2]*hx.Val{hx.Str("uid"), hx.Str(run)}, [2]*hx.Val{hx.Str("size"), hx.Int("int64", int64(rnd.Intn(64)))})
+			case kind < 75: // rejected: size is not a number
+				call.V = hx.StrAny([2]*hx.Val{hx.Str("uid"), hx.Str(run)}, [2]*hx.Val{hx.Str("size"), hx.Str("large")})
+				call.Delay = rnd.Intn(3000)
+			case kind < 88: // rejected: required field missing
+				call.V = hx.StrAny([2]*hx.Val{hx.Str("size"), hx.Int("int64", 10)})
+				call.Delay = rnd.Intn(3000)
+			default:
+				call.Step = "no-such-step"
+				call.V = hx.StrAny([2]*hx.Val{hx.Str("uid"), hx.Str(run)}, [2]*hx.Val{hx.Str("size"), hx.Int("int64", 2048)})
+				call.Delay = rnd.Intn(3000)
+			}
+			if call.Delay == 0 && rnd.Intn(3) == 0 {
+				call.Delay = rnd.Intn(1500)
+			}
+			round = append(round, len(sp.Calls))
+			sp.Calls = append(sp.Calls, call)
+		}
+		sp.Rounds = append(sp.Rounds, round)
+	}
+	return sp
+}
+
+func (g *atpxGenT) input(st atpxStep, uid string) *hx.Val {
 	for try := 0; try < 20; try++ {
 		v := g.g.Value(st.Input, hx.Env{}, 0)
 		if v.Kind == "m" {
@@ -279,12 +429,11 @@ func (g *atpxGenT) input(st atpxStep, uid string) any {
 			}
 			v.M = append(kept, [2]*hx.Val{hx.Str("uid"), hx.Str(uid)})
 		}
-		goVal := v.ToGo()
-		if _, err := cborNorm(goVal); err == nil {
-			return goVal
+		if _, err := cborNorm(v.ToGo()); err == nil {
+			return v
 		}
 	}
-	return map[string]any{"uid": uid}
+	return hx.StrAny([2]*hx.Val{hx.Str("uid"), hx.Str(uid)})
 }
 
 // ---------------------------------------------------------------------------------------------
@@ -337,11 +486,16 @@ type atpxSessionResult struct {
 	calls    int
 	errs     int
 	chunks   int
+	pieces   int
 }
 
-func atpxRunSession(p *atpxPlugin, calls []atpxCall, pattern string, transport string, v1 bool, seed int64, timeout time.Duration) (out atpxSessionResult) {
+func atpxRunSession(sp *atpxSpec, timeout time.Duration) (out atpxSessionResult) {
+	calls, pattern, transport, v1, seed := sp.Calls, sp.Pattern, sp.Transport, sp.V1, sp.Seed
+	for i := range calls {
+		calls[i].Input = calls[i].V.ToGo()
+	}
 	find := func(format string, args ...any) { out.findings = append(out.findings, fmt.Sprintf(format, args...)) }
-	ref := p.build()
+	ref := sp.build()
 	expected := make([]atpxExpect, len(calls))
 	for i, c := range calls {
 		e, ok := atpxReference(ref, c)
@@ -357,6 +511,7 @@ func atpxRunSession(p *atpxPlugin, calls []atpxCall, pattern string, transport s
 	var s2cR io.ReadCloser
 	var s2cW io.WriteCloser
 	var chunkPipes []*atpxChunkPipe
+	var split *atpxSplitWriter
 	if transport == "pipe" {
 		c2sR, c2sW = io.Pipe()
 		s2cR, s2cW = io.Pipe()
@@ -364,20 +519,24 @@ func atpxRunSession(p *atpxPlugin, calls []atpxCall, pattern string, transport s
 		a, b := newAtpxChunkPipe(seed), newAtpxChunkPipe(seed+1)
 		c2sR, c2sW, s2cR, s2cW = a, a, b, b
 		chunkPipes = []*atpxChunkPipe{a, b}
+		if transport == "split" {
+			split = &atpxSplitWriter{w: b, r: rand.New(rand.NewSource(seed + 2))}
+			s2cW = split
+		}
 	}
 	ctx, cancel := context.WithCancel(context.Background())
 	defer cancel()
 
 	serverDone := make(chan int, 1)
 	if !v1 {
-		srv := p.build()
+		srv := sp.build()
 		go func() {
 			errs := atp.RunATPServer(ctx, c2sR, s2cW, srv)
 			serverDone <- len(errs)
 			_ = s2cW.Close()
 		}()
 	} else {
-		srv := p.build()
+		srv := sp.build()
 		go func() {
 			// the legacy server: start message, hello with version 1, then work-start / work-done
 			// pairs without run IDs
@@ -463,6 +622,22 @@ func atpxRunSession(p *atpxPlugin, calls []atpxCall, pattern string, transport s
 				break
 			}
 		}
+	case pattern == "rounds":
+		for _, round := range sp.Rounds {
+			var wg sync.WaitGroup
+			for _, i := range round {
+				i := i
+				wg.Add(1)
+				go func() {
+					defer wg.Done()
+					if d := calls[i].Delay; d > 0 {
+						time.Sleep(time.Duration(d) * time.Microsecond)
+					}
+					exec(i)
+				}()
+			}
+			wg.Wait()
+		}
 	case pattern == "overlap":
 		var wg sync.WaitGroup
 		for i := range calls {
@@ -544,6 +719,13 @@ func atpxRunSession(p *atpxPlugin, calls []atpxCall, pattern string, transport s
 	for _, cp := range chunkPipes {
 		out.chunks += cp.chunks
 	}
+	if split != nil {
+		out.pieces = split.pieces
+	}
+	if len(out.findings) > 4 {
+		more := len(out.findings) - 4
+		out.findings = append(out.findings[:4], fmt.Sprintf("... and %d more differences in the same session", more))
+	}
 	return out
 }
 
@@ -557,29 +739,60 @@ func atpxShort(s string) string {
 // ---------------------------------------------------------------------------------------------
 // the command
 
+func atpxReplay(a Args, s *sink) {
+	b, err := os.ReadFile(a.Replay)
+	if err != nil {
+		fmt.Fprintln(os.Stderr, "atpsession: replay:", err)
+		os.Exit(2)
+	}
+	// a replay file written by the orchestrator (a finding with the session in detail[0]), a line of
+	// findings.jsonl, or a bare session
+	text := string(b)
+	var fd struct {
+		Detail []string `json:"detail"`
+	}
+	if json.Unmarshal(b, &fd) == nil && len(fd.Detail) > 0 {
+		text = fd.Detail[0]
+	}
+	var sp atpxSpec
+	if err := json.Unmarshal([]byte(text), &sp); err != nil || len(sp.Calls) == 0 {
+		fmt.Fprintln(os.Stderr, "atpsession: replay: no session in", a.Replay, err)
+		os.Exit(2)
+	}
+	reps := 5
+	for i := 0; i < reps; i++ {
+		cp := sp
+		cp.Calls = append([]atpxCall{}, sp.Calls...)
+		cp.Seed = sp.Seed + int64(i)*7
+		r := atpxRunSession(&cp, 5*time.Second)
+		s.stats["sessions"]++
+		s.stats["executes"] += r.calls
+		for _, f := range r.findings {
+			desc, _ := json.Marshal(&cp)
+			s.finding(Finding{Prop: "C05", What: f, Cases: []int{}, Detail: []string{string(desc)}})
+		}
+	}
+	writeStats(a.Out, s, nil)
+}
+
 func atpxCmd(a Args) {
 	if err := os.MkdirAll(a.Out, 0o755); err != nil {
 		panic(err)
 	}
 	s := newSink(a.Out)
 	defer s.close()
+	if a.Replay != "" {
+		atpxReplay(a, s)
+		return
+	}
 	thorough := a.Tier == "thorough"
 	n := a.N
 	if thorough {
 		n *= 10
 	}
-	type job struct {
-		idx       int
-		plugin    *atpxPlugin
-		calls     []atpxCall
-		pattern   string
-		transport string
-		v1        bool
-		seed      int64
-	}
 	g := &atpxGenT{g: hx.NewGen(a.Seed)}
 	g.g.MaxDepth = 2
-	var jobs []job
+	var jobs []*atpxSpec
 	for i := 0; i < n; i++ {
 		p := g.plugin()
 		maxCalls := 6
@@ -595,23 +808,27 @@ func atpxCmd(a Args) {
 			if g.g.R.Intn(25) == 0 {
 				step = "no-such-step"
 			}
-			calls = append(calls, atpxCall{RunID: run, Step: step, Input: g.input(st, run)})
+			calls = append(calls, atpxCall{RunID: run, Step: step, V: g.input(st, run)})
 		}
 		pattern := []string{"serial", "overlap", "waves"}[g.g.R.Intn(3)]
-		transport := []string{"pipe", "chunked"}[g.g.R.Intn(2)]
+		transport := []string{"pipe", "chunked", "split"}[g.g.R.Intn(3)]
 		v1 := g.g.R.Intn(5) == 0
-		jobs = append(jobs, job{i, p, calls, pattern, transport, v1, a.Seed*1000003 + int64(i)})
+		jobs = append(jobs, &atpxSpec{Idx: i, Stream: "generated", Plugin: p, Calls: calls, Pattern: pattern, Transport: transport, V1: v1, Seed: a.Seed*1000003 + int64(i)})
 	}
-	timeout := 10 * time.Second
-	type res struct {
-		idx int
-		r   atpxSessionResult
+	// the bulk stream: large work-done messages overlapping error reports over the split transport
+	nBulk := 32
+	if thorough {
+		nBulk = 400
+	}
+	brnd := rand.New(rand.NewSource(a.Seed*31337 + 5))
+	for i := 0; i < nBulk; i++ {
+		jobs = append(jobs, atpxBulkSpec(n+i, brnd, a.Seed*2000003+int64(i)))
 	}
 	results := make([]atpxSessionResult, len(jobs))
 	sem := make(chan struct{}, 16)
 	var wg sync.WaitGroup
-	for _, j := range jobs {
-		j := j
+	for ji, j := range jobs {
+		ji, j := ji, j
 		sem <- struct{}{}
 		wg.Add(1)
 		go func() {
@@ -619,29 +836,40 @@ func atpxCmd(a Args) {
 			defer func() { <-sem }()
 			defer func() {
 				if r := recover(); r != nil {
-					results[j.idx] = atpxSessionResult{findings: []string{fmt.Sprintf("harness-side panic: %v", r)}}
+					results[ji] = atpxSessionResult{findings: []string{fmt.Sprintf("harness-side panic: %v", r)}}
 				}
 			}()
-			results[j.idx] = atpxRunSession(j.plugin, j.calls, j.pattern, j.transport, j.v1, j.seed, timeout)
+			timeout := 10 * time.Second
+			if j.Stream == "bulk" {
+				timeout = 5 * time.Second
+			}
+			results[ji] = atpxRunSession(j, timeout)
 		}()
 	}
 	wg.Wait()
-	for _, j := range jobs {
-		r := results[j.idx]
+	for ji, j := range jobs {
+		r := results[ji]
 		ver := "v3"
-		if j.v1 {
+		if j.V1 {
 			ver = "v1"
 		}
 		s.stats["sessions"]++
-		s.stats["pattern:"+j.pattern]++
-		s.stats["transport:"+j.transport]++
+		s.stats["stream:"+j.Stream]++
+		s.stats["pattern:"+j.Pattern]++
+		s.stats["transport:"+j.Transport]++
 		s.stats["version:"+ver]++
 		s.stats["executes"] += r.calls
 		s.stats["executes-expected-error"] += r.errs
 		s.stats["chunks"] += r.chunks
-		s.stats[fmt.Sprintf("calls-per-session:%02d", len(j.calls))]++
+		s.stats["split-pieces"] += r.pieces
+		if j.Stream == "bulk" {
+			s.stats["bulk:executes"] += r.calls
+			s.stats["bulk:rounds"] += len(j.Rounds)
+		} else {
+			s.stats[fmt.Sprintf("calls-per-session:%02d", len(j.Calls))]++
+		}
 		for _, f := range r.findings {
-			desc, _ := json.Marshal(map[string]any{"session": j.idx, "pattern": j.pattern, "transport": j.transport, "version": ver, "calls": len(j.calls), "plugin": j.plugin})
+			desc, _ := json.Marshal(j)
 			s.finding(Finding{Prop: "C05", What: f, Cases: []int{}, Detail: []string{string(desc)}})
 		}
 	}
